@@ -142,7 +142,10 @@ def pathFromDocument (s : Schema) : Nat → Active → Val → (acceptArray : Bo
           match ms[n]? with
           | none => .error "index-out-of-range"
           | some m => (pathFromDocument s fuel a (.single m) true rest).map (.i n :: ·)
-        | .single m => (pathFromDocument s fuel a (.single m) true rest).map (.i n :: ·)
+        | .single m =>
+          -- a value that is not an array is the only member there is (repair D21)
+          if n ≠ 0 then .error "index-out-of-range"
+          else (pathFromDocument s fuel a (.single m) true rest).map (.i n :: ·)
     else
       match cur with
       | .arr ms =>
